@@ -182,6 +182,8 @@ def run(plugin, prop, tier, seed, t0):
             cov.hist[k_] = cov.hist.get(k_, 0) + v_
         cov.samples += ec.samples[:2]
         cov.rule += ' || ' + ec.rule
+    # a stage shared by two properties tags each failure with the property whose clause it is ('for'); only this property's are decided here
+    failures = [f for f in failures if f.get('for', prop) == prop]
     # 7. decide
     ledger = common.load_ledger()
     known = [e for e in ledger.get('findings', []) if e['property'] == prop]
